@@ -119,6 +119,8 @@ def gen_vtu_case(rng, name_pool=None):
 
 def relayout(a: np.ndarray, lay: str) -> np.ndarray:
     """same shape, dtype and logical entries; different strides"""
+    if lay in P6G_LAYOUTS:
+        return relayout_p6g(a, lay)
     if a.ndim < 2 or a.size == 0 or lay == "C":
         return a
     if lay == "F":
@@ -126,6 +128,40 @@ def relayout(a: np.ndarray, lay: str) -> np.ndarray:
     axes = list(range(a.ndim))
     axes[-1], axes[-2] = axes[-2], axes[-1]
     return np.ascontiguousarray(a.transpose(axes)).transpose(axes)
+
+
+P6G_LAYOUTS = ("RO", "S", "CS", "N", "U")
+
+
+def relayout_p6g(a: np.ndarray, lay: str) -> np.ndarray:
+    """phase 6 (package G): same shape, dtype and logical entries; read-only copy (RO), every second row of a larger
+    buffer (S), every second column of a larger buffer (CS), negative strides on the first and last axis (N),
+    unaligned read-only view into a byte string at offset 1 — what arrays decoded from files look like (U)"""
+    if a.size == 0:
+        return a
+    if lay == "RO":
+        b = a.copy()
+        b.flags.writeable = False
+        return b
+    if lay == "S":
+        big = np.zeros((2 * a.shape[0] + 1,) + a.shape[1:], dtype=a.dtype)
+        big[1::2] = a
+        return big[1::2]
+    if lay == "CS":
+        if a.ndim < 2:
+            return relayout_p6g(a, "S")
+        big = np.zeros(a.shape[:-1] + (2 * a.shape[-1],), dtype=a.dtype)
+        big[..., ::2] = a
+        return big[..., ::2]
+    if lay == "N":
+        b = np.ascontiguousarray(a[::-1])[::-1]
+        if a.ndim >= 2:
+            b = np.ascontiguousarray(b[..., ::-1])[..., ::-1]
+        return b
+    if lay == "U":
+        buf = b"\x00" + np.ascontiguousarray(a).tobytes()
+        return np.frombuffer(buf, dtype=a.dtype, offset=1).reshape(a.shape)
+    raise ValueError(lay)
 
 
 def to_obj(case):
@@ -421,6 +457,9 @@ def check_vtu(ctx, work, written_case, tags, rep, in_model=True):
     tg += sorted({"tail-" + "x".join(map(str, f["tail"])) if f["tail"] else "tail-scalar"
                   for f in written_case["pf"] + written_case["cf"]})
     tg.append("impl-" + res[0])
+    tg += tags.get("chain_tags", [])
+    if tags["transform"].startswith("p6g-"):
+        tg.append("p6g-vtu")
     small = {"dim": written_case["dim"], "npoints": len(written_case["points"]),
              "cells": [[t, len(r)] for t, r in written_case["cells"]],
              "fields": [[f["name"], f["dt"], f["tail"]] for f in written_case["pf"] + written_case["cf"]],
@@ -722,6 +761,311 @@ def adversarial_vtu(rng):
     return out
 
 
+# ------------------------------------------------------------------ phase 6 (package G): directed batches
+
+CHAIN_FIRST = ["sort", "sort_points", "sort_cells", "strip", "extend", "merge", "merge_nodedup", "reread"]
+CHAIN_NEXT = ["sort", "sort_points", "sort_cells", "strip", "extend", "reread"]
+
+
+def chain_step(work, kind, obj):
+    from fieldcompare import mesh as fm
+    if kind == "sort":
+        return fm.sort(obj)
+    if kind == "sort_points":
+        return fm.sort_points(obj)
+    if kind == "sort_cells":
+        return fm.sort_cells(obj)
+    if kind == "strip":
+        return fm.strip_orphan_points(obj)
+    if kind == "extend":
+        return fm.extend_space_dimension_to(3, obj)
+    if kind == "reread":
+        # what a file reader hands out: read-only arrays decoded from a buffer
+        from fieldcompare.io import write, read_field_data
+        base = work.base()
+        path = write(obj, base)
+        back = read_field_data(path)
+        os.remove(path)
+        return back
+    raise ValueError(kind)
+
+
+def apply_chain(rng, work, kinds, case):
+    """several transformations applied one after the other (the first may be a merge)"""
+    from fieldcompare import mesh as fm
+    if kinds[0] in ("merge", "merge_nodedup"):
+        obj = fm.merge(to_obj(case), to_obj(shifted_copy(rng, case)), remove_duplicate_points=(kinds[0] == "merge"))
+    else:
+        obj = chain_step(work, kinds[0], to_obj(case))
+    for k in kinds[1:]:
+        obj = chain_step(work, k, obj)
+    return obj
+
+
+def p6g_vtu_cases(ctx, rng, work, todo):
+    """appends (case, tags) to `todo`; the cases go through `check_vtu` like the random ones (Lean model where the
+    protocol carries the case and the case is inside `hyp`, Python oracle always)"""
+    from fcv import c13_directed_p6g as dg
+    sizes = [1, 2, 17, 1000, 1001, 1366, 4097] + ctx.scale([], [3, 255, 256, 257, 2731, 8191, 8193, 21846])
+    directed = dg.size_cases(rng, rand_bits, sizes)
+    # beyond 2**16 rows / 2**16..2**18 payload bytes: oracle only (the protocol line would be megabytes)
+    big = dg.size_cases(rng, rand_bits, [10923, 65537] + ctx.scale([], [65536, 87382, 131073]))
+    directed += dg.type_cases(rng, rand_bits) + dg.tail_cases(rng, rand_bits) + dg.conn_cases(rng, rand_bits)
+    directed += dg.point_cases(rng, rand_bits)
+    directed += [(c, l) for c, l in dg.name_cases(rng, rand_bits)]
+    directed += dg.layout_cases(rng, gen_vtu_case)
+    for c, label in directed:
+        todo.append((c, {"transform": "p6g-" + label, "obj": to_obj(c), "adv": True}))
+    for c, label in big:
+        todo.append((c, {"transform": "p6g-" + label + "-oracle", "obj": to_obj(c), "adv": True, "noproto": True}))
+    # new memory layouts under the single transformations, and chains of transformations
+    for i in range(ctx.scale(40, 1000)):
+        case, _ = gen_vtu_case(rng)
+        case["layout"] = P6G_LAYOUTS[i % len(P6G_LAYOUTS)]
+        kind = TRANSFORMS[2 + i % (len(TRANSFORMS) - 2)]
+        try:
+            with warnings.catch_warnings():
+                warnings.simplefilter("ignore")
+                obj = apply_transform(rng, kind, case)
+                written = extract(obj)
+        except Exception as e:  # noqa: BLE001
+            ctx.dist[f"transform-raised-{kind}-{type(e).__name__}"] += 1
+            continue
+        todo.append((written, {"transform": f"p6g-lay{case['layout']}", "obj": obj, "chain_tags": ["p6g-lay-under-" + kind]}))
+    for i in range(ctx.scale(120, 3000)):
+        case, _ = gen_vtu_case(rng)
+        kinds = [CHAIN_FIRST[i % len(CHAIN_FIRST)]] + [rng.choice(CHAIN_NEXT) for _ in range(rng.randint(1, 2))]
+        try:
+            with warnings.catch_warnings():
+                warnings.simplefilter("ignore")
+                obj = apply_chain(rng, work, kinds, case)
+                written = extract(obj)
+        except Exception as e:  # noqa: BLE001
+            ctx.dist[f"transform-raised-chain-{type(e).__name__}"] += 1
+            continue
+        todo.append((written, {"transform": "p6g-chain", "obj": obj,
+                               "chain_tags": ["p6g-chain", "p6g-chain-len=%d" % len(kinds)]
+                               + ["p6g-chain-has-" + k for k in sorted(set(kinds))]}))
+
+
+def _seq_objs(rng, cases, objs):
+    built = []
+    for ci, tr in objs:
+        with warnings.catch_warnings():
+            warnings.simplefilter("ignore")
+            o = to_obj(cases[ci]) if tr == "plain" else apply_transform(rng, tr, copy.deepcopy(cases[ci]))
+            built.append((o, extract(o)))
+    return built
+
+
+def run_vtu_seq(work, built, steps):
+    """-> None or (step number, description): write objects (built once, reused) to files that are reused as well;
+    after every step every file must read back to what was written to it last (Python oracle: search)"""
+    from fieldcompare.io import write, read_field_data
+    bases = {}
+    last = {}
+    try:
+        for k, (oi, fi) in enumerate(steps):
+            bases.setdefault(fi, work.base())
+            obj, _ = built[oi]
+            try:
+                with warnings.catch_warnings():
+                    warnings.simplefilter("ignore")
+                    write(obj, bases[fi])
+            except Exception as e:  # noqa: BLE001
+                return k, f"write raised {type(e).__name__}: {str(e)[:150]}"
+            last[fi] = oi
+            for f, o in last.items():
+                exp = normalise_py(built[o][1])
+                try:
+                    with warnings.catch_warnings():
+                        warnings.simplefilter("ignore")
+                        back = canon_readback(read_field_data(bases[f] + ".vtu"))
+                except Exception as e:  # noqa: BLE001
+                    return k, f"reading file {f} raised {type(e).__name__}: {str(e)[:150]}"
+                if not _canon_eq(exp, back):
+                    return k, f"file {f} (object {o} written last): " + describe_diff(exp, back)
+        return None
+    finally:
+        for b in bases.values():
+            try:
+                os.remove(b + ".vtu")
+            except OSError:
+                pass
+
+
+def run_csv_seq(work, tables, steps):
+    from fieldcompare.io import write, read_field_data
+    bases, last = {}, {}
+    objs = [table_obj(t) for t in tables]
+    try:
+        for k, (ti, fi) in enumerate(steps):
+            bases.setdefault(fi, work.base())
+            try:
+                with warnings.catch_warnings():
+                    warnings.simplefilter("ignore")
+                    write(objs[ti], bases[fi])
+                last[fi] = ti
+                for f, t in last.items():
+                    back = canon_table(read_field_data(bases[f] + ".csv", {"dsv": {"delimiter": ",", "use_names": True}}))
+                    exp = table_expected(tables[t])
+                    if [list(x) for x in back] != [list(x) for x in exp]:
+                        return k, f"file {f} (table {t} written last): read back {str(back)[:200]} expected {str(exp)[:200]}"
+            except Exception as e:  # noqa: BLE001
+                return k, f"raised {type(e).__name__}: {str(e)[:150]}"
+        return None
+    finally:
+        for b in bases.values():
+            try:
+                os.remove(b + ".csv")
+            except OSError:
+                pass
+
+
+def p6g_sequences(ctx, rng, work):
+    from fcv import c13_directed_p6g as dg
+    for rep in range(ctx.scale(1, 20)):
+        for cases, objs, steps, label in dg.vtu_sequences(rng, rand_bits, gen_vtu_case):
+            try:
+                built = _seq_objs(rng, cases, objs)
+            except Exception as e:  # noqa: BLE001
+                ctx.dist[f"transform-raised-seq-{type(e).__name__}"] += 1
+                continue
+            bad = run_vtu_seq(work, built, steps)
+            ctx.case(("vtuseq", repr((cases, objs, steps))), nontrivial=True, tags=["p6g-" + label, "p6g-vtuseq"],
+                     sample={"case": {"label": label, "steps": steps}, "impl": "ok" if bad is None else "bad"})
+            if bad is not None:
+                ctx.violation({"kind": "vtuseq", "cases": cases, "objs": [list(o) for o in objs],
+                               "steps": [list(x) for x in steps]},
+                              f"step {bad[0]}: {bad[1]}", "every file reads back to what was written to it last",
+                              what="repeated / overwriting VTU writes changed the data")
+        for tables, steps, label in dg.csv_sequences(rng, rand_bits):
+            bad = run_csv_seq(work, tables, steps)
+            ctx.case(("csvseq", repr((tables, steps))), nontrivial=True, tags=["p6g-" + label, "p6g-csvseq"],
+                     sample={"case": {"label": label, "steps": steps}, "impl": "ok" if bad is None else "bad"})
+            if bad is not None:
+                ctx.violation({"kind": "csvseq", "tables": tables, "steps": [list(x) for x in steps]},
+                              f"step {bad[0]}: {bad[1]}", "every file reads back to the table written to it last",
+                              what="repeated / overwriting CSV writes changed the table")
+
+
+def build_big(spec):
+    """spec (c13_directed_p6g.array_bytes_specs) -> (points, quads, point data, cell data) as numpy arrays, built directly"""
+    n = int(spec["npoints"])
+    m = n // 2
+    pts = np.zeros((n, 3), dtype=np.float64)
+    pts[:2 * m, 0] = np.tile(np.arange(m, dtype=np.float64), 2) * 0.5
+    pts[m:2 * m, 1] = 1.0
+    if n % 2:
+        pts[-1] = [-1.0, -1.0, 0.25]         # one unconnected point
+    i = np.arange(m - 1, dtype=np.int64)
+    quads = np.stack([i, i + 1, m + i + 1, m + i], axis=1)
+    pd, cd = {}, {}
+    for k, (where, name, dt, tail) in enumerate(spec["fields"]):
+        rows = n if where == "p" else len(quads)
+        count = rows * prodl(tail)
+        bits = 8 * SIZE[dt]
+        with np.errstate(over="ignore"):
+            u = (np.arange(count, dtype=np.uint64) * np.uint64(0x9E3779B97F4A7C15) + np.uint64(int(spec["salt"]) * 1000003 + k)) \
+                >> np.uint64(64 - bits)
+        u = u.astype(np.dtype(f"<u{SIZE[dt]}"))
+        if dt.startswith("float"):
+            expo = (0x7FF << 52) if dt == "float64" else (0xFF << 23)
+            nonfinite = (u & u.dtype.type(expo)) == u.dtype.type(expo)
+            u[nonfinite] &= u.dtype.type(~(1 << (bits - 2)) & ((1 << bits) - 1))     # finite values only
+        a = u.view(np.dtype(dt)).reshape([rows] + list(tail))
+        (pd if where == "p" else cd)[name] = a
+    return pts, quads, pd, cd
+
+
+def run_big(work, spec):
+    """-> None or a description of the first difference (numpy, bit patterns): independent Python expectation (search)"""
+    from fieldcompare.mesh import Mesh, MeshFields, CellType
+    from fieldcompare.io import write, read_field_data
+    pts, quads, pd, cd = build_big(spec)
+    base = work.base()
+    try:
+        with warnings.catch_warnings():
+            warnings.simplefilter("ignore")
+            obj = MeshFields(Mesh(pts, [(CellType.from_name("QUAD"), quads)]), dict(pd), {k: [v] for k, v in cd.items()})
+            path = write(obj, base)
+            back = read_field_data(path)
+            bp = np.asarray(back.domain.points)
+            if bp.dtype != pts.dtype or bp.shape != pts.shape or not np.array_equal(bp.view(np.uint64), pts.view(np.uint64)):
+                return "points differ"
+            cts = [ct.name for ct in back.domain.cell_types]
+            if cts != ["QUAD"] or not np.array_equal(np.asarray(back.domain.connectivity(CellType.from_name("QUAD"))), quads):
+                return f"cells differ (types {cts})"
+            got = {f.name: np.asarray(f.values) for f in back}
+            want = dict(pd)
+            want.update({f"{k} @ QUAD": v for k, v in cd.items()})
+            if len(got) != len(pd) + len(cd):
+                return f"field names {sorted(got)} vs {sorted(pd) + sorted(cd)}"
+            for name, v in pd.items():
+                if name not in got:
+                    return f"point field {name} missing (have {sorted(got)})"
+            for name, v in list(pd.items()) + list(cd.items()):
+                g = got.get(name)
+                if g is None:
+                    cand = [x for k2, x in got.items() if k2.startswith(name + " ") or k2.startswith(name + "_")]
+                    g = cand[0] if len(cand) == 1 else None
+                if g is None:
+                    return f"field {name} missing (have {sorted(got)})"
+                e = v.reshape(len(v), -1) if v.ndim > 1 else v
+                if g.dtype != e.dtype or g.shape != e.shape:
+                    return f"field {name}: dtype/shape {g.dtype}{g.shape} vs {e.dtype}{e.shape}"
+                ub = np.dtype(f"<u{e.dtype.itemsize}")
+                if not np.array_equal(np.ascontiguousarray(g).view(ub), np.ascontiguousarray(e).view(ub)):
+                    bad = int(np.flatnonzero(np.ascontiguousarray(g).view(ub).reshape(-1) != np.ascontiguousarray(e).view(ub).reshape(-1))[0])
+                    return f"field {name}: first differing scalar at flat index {bad} of {e.size}"
+        return None
+    except Exception as e:  # noqa: BLE001
+        return f"raised {type(e).__name__}: {str(e)[:150]}"
+    finally:
+        try:
+            os.remove(base + ".vtu")
+        except OSError:
+            pass
+
+
+def p6g_array_bytes(ctx, work):
+    from fcv import c13_directed_p6g as dg
+    for spec in dg.array_bytes_specs(ctx.tier == "thorough"):
+        bad = run_big(work, spec)
+        sizes = []
+        for where, name, dt, tail in spec["fields"]:
+            rows = spec["npoints"] if where == "p" else spec["npoints"] // 2 - 1
+            sizes.append(8 + rows * SIZE[dt] * prodl(tail))
+        top = max(sizes + [8 + 24 * spec["npoints"]])
+        ctx.case(("vtubig", repr(spec)), nontrivial=True,
+                 tags=[spec["label"], "p6g-array-bytes", "p6g-array-bytes>1MiB" if max(sizes) > 2 ** 20 else
+                       ("p6g-array-bytes~2^20" if max(sizes) > 2 ** 19 else "p6g-array-bytes~2^16")],
+                 sample={"case": {"label": spec["label"], "npoints": spec["npoints"], "field_array_bytes": sizes,
+                                  "largest_array_bytes": top}, "impl": "ok" if bad is None else "bad"})
+        if bad is not None:
+            ctx.violation({"kind": "vtubig", "spec": spec}, bad, "read back bit-identical (numpy comparison)",
+                          what="VTU round trip of a large data array changed the data")
+
+
+def p6g_csv(ctx, rng, work):
+    from fcv import c13_directed_p6g as dg
+    tabs = dg.csv_tables(rng, rand_bits, [0, 2, 17, 1000, 1001, 4097] + ctx.scale([], [255, 256, 65536, 65537]))
+    # index maps that repeat / drop rows (a transformed table need not be a permutation)
+    for _ in range(ctx.scale(30, 600)):
+        t = gen_table(rng)
+        n = t["nrows"]
+        t["idx"] = [rng.randrange(n) for _ in range(n)]     # (the table domain fixes the number of rows)
+        tabs.append((t, "csv-indexmap-nonperm"))
+    small = [(t, l) for t, l in tabs if t["nrows"] <= 1001 and t["nrows"] > 0]
+    lines = [enc_table(t) for t, _ in small] if ctx.driver_ok else []
+    reps = dict(zip([id(t) for t, _ in small], ctx.lean(lines))) if lines else {}
+    for t, label in tabs:
+        check_csv(ctx, work, t, reps.get(id(t)), ["csv", "p6g-" + label])
+    for t, label in dg.csv_tables(rng, rand_bits, [70001]):
+        if label.startswith("csv-size-"):
+            check_csv(ctx, work, t, None, ["csv", "p6g-" + label])
+
+
 # ------------------------------------------------------------------ run
 
 def run(ctx):
@@ -764,12 +1108,14 @@ def _run(ctx, rng, work):
             todo.append((c, {"transform": "adv-" + label, "obj": to_obj(c), "adv": True}))
         except Exception as e:  # noqa: BLE001
             ctx.notes.append(f"adversarial case {label} could not be constructed: {e!r}")
+    p6g_vtu_cases(ctx, rng, work, todo)
     CH = 400
     for i in range(0, len(todo), CH):
         chunk = todo[i:i + CH]
         lines, idx = [], []
         for j, (c, tg) in enumerate(chunk):
-            if ctx.driver_ok and safe_for_protocol(c) and c["conntype"] in SIZE and c["ptype"] in SIZE:
+            if ctx.driver_ok and safe_for_protocol(c) and c["conntype"] in SIZE and c["ptype"] in SIZE \
+                    and not tg.get("noproto"):
                 idx.append(j)
                 lines.append(enc_case(c))
         reps = dict(zip(idx, ctx.lean(lines))) if lines else {}
@@ -814,6 +1160,9 @@ def _run(ctx, rng, work):
         check_csv(ctx, work, t, r, ["csv"])
     for t in ADVERSARIAL_TABLES:
         check_csv(ctx, work, t, None, ["csv-adversarial"])
+    p6g_sequences(ctx, rng, work)
+    p6g_array_bytes(ctx, work)
+    p6g_csv(ctx, rng, work)
     ctx.spec_viol = [shrink(v) for v in ctx.spec_viol[:40]]
 
 
@@ -864,6 +1213,19 @@ def replay(ctx, payload) -> int:
             ok = res[0] == "ok" and _canon_eq(exp, res[2])
             print("replay: " + ("round trip exact" if ok else
                                 (f"raised {res[1]}: {res[2]}" if res[0] == "exc" else describe_diff(exp, res[2]))))
+        elif c.get("kind") == "vtuseq":
+            bad = run_vtu_seq(work, _seq_objs(__import__("random").Random(0), c["cases"], [tuple(o) for o in c["objs"]]),
+                              [tuple(x) for x in c["steps"]])
+            ok = bad is None
+            print("replay: " + ("every file reads back to what was written last" if ok else f"step {bad[0]}: {bad[1]}"))
+        elif c.get("kind") == "vtubig":
+            bad = run_big(work, c["spec"])
+            ok = bad is None
+            print("replay: " + ("round trip exact" if ok else bad))
+        elif c.get("kind") == "csvseq":
+            bad = run_csv_seq(work, c["tables"], [tuple(x) for x in c["steps"]])
+            ok = bad is None
+            print("replay: " + ("every file reads back to what was written last" if ok else f"step {bad[0]}: {bad[1]}"))
         elif c.get("kind") == "csv":
             res = impl_csv(work, c["table"])
             exp = table_expected(c["table"])
